@@ -108,6 +108,18 @@ def Proto.handlerSends (s : Proto) : List Packet → Proto
   | [] => s
   | q :: qs => (s.nestedSend q).handlerSends qs
 
+/-- one handler closure is invoked with `p`: the call is logged, then the sends its callback makes are carried out -/
+def Proto.invoke (st : Proto) (h : Handler) (p : Packet) : Proto :=
+  ({ st with log := st.log ++ [LogEntry.call h.token p] }).handlerSends h.sends
+
+/-- `self.handlers.insert(id, (handler, capture_all))` -/
+def Proto.insertKey (s : Proto) (id : Nat) (h : Handler) : Proto :=
+  { s with handlers := insertSorted id h s.handlers }
+
+/-- the wait closure of an exchange runs -/
+def Proto.waitMark (s : Proto) : Proto :=
+  { s with log := s.log ++ [LogEntry.wait] }
+
 /-- `handle_packet`: every handler in id order if `owned`, else the capture-all ones -/
 def Proto.dispatch (s : Proto) (p : Packet) (owned : Bool) : Proto :=
   s.handlers.foldl (fun st (_, h) =>
